@@ -92,8 +92,8 @@ def run_small(key):
     try:
         m2 = M.fit(model, data2, init, its)
     except Exception as e:  # noqa
-        if model == 'cbmm' and isinstance(e, AssertionError):
-            return trivial('cBMM guard: class scatter numerically rank deficient (eigenvalue < 0 by rounding)')
+        if model == 'cbmm' and isinstance(e, (AssertionError, ValueError)):
+            return trivial('cBMM guard: class scatter numerically rank deficient (eigenvalue <= 0 by rounding)')
         return viol(f'{model}: fit(c*y) raised {e!r} although fit(y) succeeded (gains {gains.tolist()})')
     rt = 1e-5 if model == 'cbmm' else tol.TIGHT * 100
     bad = compare_models(model, m1, m2, data, data2, lead + (K, N), rt)
@@ -139,8 +139,8 @@ def run_options(key):
     try:
         m2 = M.fit(model, data2, init, p['iterations'], **opts)
     except Exception as e:  # noqa
-        if model == 'cbmm' and isinstance(e, AssertionError):
-            return trivial('cBMM guard: class scatter numerically rank deficient (eigenvalue < 0 by rounding)')
+        if model == 'cbmm' and isinstance(e, (AssertionError, ValueError)):
+            return trivial('cBMM guard: class scatter numerically rank deficient (eigenvalue <= 0 by rounding)')
         return viol(f'{model}: fit(c*y) raised {e!r} although fit(y) succeeded')
     rt = 1e-5 if model == 'cbmm' else (5e-4 if c['single'] else tol.TIGHT * 1000)
     bad = compare_models(model, m1, m2, data, data2, lead + (K, N), rt, mask=c['mask'])
